@@ -225,8 +225,9 @@ class WriteTool(BaseTool):
         # Find quoted strings ("..." after ::) and comments (// to end of line) in the text
         # OUTSIDE literal zones only: a quote character or // inside a zone is content and must
         # not pair with a quote further down the document. One left-to-right scan per segment,
-        # so that // inside a string and a quote inside a comment are read as the lexer reads them.
-        quoted_or_comment = re.compile(r'"(?:[^"\\]|\\.)*"|//[^\n]*')
+        # so that // inside a string and a quote inside a comment are read as the lexer reads them
+        # (triple-quoted strings, which may hold single quote characters, are matched first: GH#63).
+        quoted_or_comment = re.compile(r'"""(?:[^"\\]|\\.|"(?!""))*"""|"(?:[^"\\]|\\.)*"|//[^\n]*')
         segment_start = 0
         for fence_range_start, fence_range_end in list(protected) + [(len(content), len(content))]:
             for m in quoted_or_comment.finditer(content, segment_start, fence_range_start):
